@@ -2241,3 +2241,22 @@ package bpmn
 //@   ensures [built-not-yet-reached-with-an-inbox-of-two-slots-per-incoming-flow-plus-one] err == nil && evt != nil && fresh(evt) && evt.wiring == wr && evt.element == element &&
 //@             !evt.activated && !evt.completed && evt.mch != nil && chancap(evt.mch) == 2*len(wr.incoming) + 1
 //@   ensures [an-end-event-listens-to-nothing] count(Call, code("event|ISource.RegisterEventConsumer")) == old(count(Call, code("event|ISource.RegisterEventConsumer")))
+
+// ---------------------------------------------------------------------------
+// process.go: the options that seed an instance's data (C16: variables of one instance are not visible in another).
+// An option value may be applied to many instances (a default option list, a process set re-applies its options to
+// every member): every application that finds no locator builds one of its own, there and then.
+//@ func WithVariables$1
+//@   prop C16
+//@   requires opt != nil
+//@   ensures [an-instance-without-a-locator-gets-one-built-for-it-by-this-very-application] old(tag(opt.locator)) == 0 ==>
+//@             ndirect(code("data|NewFlowDataLocator")) == old(ndirect(code("data|NewFlowDataLocator"))) + 1 && tag(opt.locator) != 0
+//@   ensures [a-locator-already-there-is-kept] old(tag(opt.locator)) != 0 ==> opt.locator == old(opt.locator)
+//@   loop 1 range variables
+//@     invariant opt.locator == atentry(1, opt.locator) && ndirect(code("data|NewFlowDataLocator")) == atentry(1, ndirect(code("data|NewFlowDataLocator")))
+//@ func WithDataObjects$1
+//@   prop C16
+//@   requires opt != nil
+//@   ensures [an-instance-without-a-locator-gets-one-built-for-it-by-this-very-application] old(tag(opt.locator)) == 0 ==>
+//@             ndirect(code("data|NewFlowDataLocator")) == old(ndirect(code("data|NewFlowDataLocator"))) + 1 && tag(opt.locator) != 0
+//@   ensures [a-locator-already-there-is-kept] old(tag(opt.locator)) != 0 ==> opt.locator == old(opt.locator)
